@@ -28,6 +28,9 @@ def shaped(g):
     out.append(("namedscalar", g.pair(kinds=["namedscalar", "same"], n=(2, 3), names=["ident"])))
     out.append(("underscore-tag", g.pair(names=["underscore", "ident"], n=(2, 3), kinds=["same"])))
     out.append(("ptrconv", g.pair(kinds=["ptrconv", "same"], n=(2, 3), names=["ident"])))
+    out.append(("nested-tag", g.pair(nested_tag=1.0, embeds=1.0, deep=0.9, kinds=["same"], names=["ident"], n=(3, 4))))
+    out.append(("skip-shadow", g.pair(skip_shadow=1.0, embeds=1.0, deep=0.9, kinds=["same"], names=["ident"], n=(3, 4), shadow=0)))
+    out.append(("conv-src-named", g.pair(kinds=["conv"], names=["ident"], n=(4, 5), flags={"way": "both"})))
     return out
 
 
@@ -50,6 +53,10 @@ def gen_cases(ctx):
             o = {"names": ["underscore", "ident", "tag"]}
         elif r < 0.17:
             o = {"kinds": ["ptrconv", "same", "conv"]}
+        elif r < 0.20:
+            o = {"nested_tag": 1.0, "embeds": 1.0}
+        elif r < 0.23:
+            o = {"skip_shadow": 1.0, "embeds": 1.0}
         c = mapgen.make_case("r%d" % i, g.pair(**o))
         c["feat"] = "random"
         cases.append(c)
